@@ -124,8 +124,9 @@ def _junk_table(g, idx, seq, empty):
     return bytes(out)
 
 
-def build_image(r):
-    """-> (Image, truth, truth_typed)"""
+def build_image(r, trace=None):
+    """-> (Image, truth, truth_typed); `trace` (a dict) receives the region map of the written file: name -> offset (`pos`), name -> size
+    (`regs`), entries per object table (`ot_n`), per key table (size, tail mode) and per decoy (size, tail mode)"""
     tree = r["tree"]
     ents = entries(tree)
     opts = r.get("opts", {})
@@ -339,6 +340,9 @@ def build_image(r):
             out += struct.pack("<BIQIB", ent[0], g.getrandbits(32), ent[1], ent[2] & 0xFFFFFFFF, ent[3])
         im.put_hex(pos[f"ot{k}"], bytes(out))
     im.finish(max(size, im.size))
+    if trace is not None:
+        trace.update(pos=dict(pos), regs=dict(regs), ot_n=list(ot_n), tables=[(t["size"], t["tail"]) for t in tables],
+                     decoys=[(regs[f"dk{di}"], tables[d["of"]]["tail"] if d.get("kind") == "mut" else None) for di, d in enumerate(decoys)])
     return im, _truth(tree), _typed(tree)
 
 
